@@ -144,6 +144,8 @@ MUTATIONS = [
     ("tlexport/session.py", '                          f"Client Port: {self.client_port}")\n            self.can_decrypt = False\n            return\n\n        try:', '                          f"Client Port: {self.client_port}")\n            return\n\n        try:', 'generate_keys select: can_decrypt stays set without secrets'),
     ("tlexport/session.py", '        elif algo in [TripleDES, IDEA]:\n            block_size = 64', '        elif algo in [TripleDES]:\n            block_size = 64', 'generate_keys block_size: IDEA without a block size'),
     ("tlexport/session.py", '        if algo in [AES, AESCCM, AESGCM, Camellia]:\n            block_size = 128', '        if algo in [AES, AESCCM, AESGCM, Camellia]:\n            block_size = 16', 'generate_keys block_size: bytes instead of bits'),
+    ("tlexport/session.py", '                                   self.tls_version, cipher_suite["KeyLength"], cipher_suite["MAC"].digest_size,', '                                   self.tls_version, cipher_suite["MAC"].digest_size, cipher_suite["KeyLength"],', 'generate_keys install: key length and MAC length swapped'),
+    ("tlexport/session.py", '                                   cipher_suite["TagLength"], block_size, self.extensions, self.compression_method)', '                                   cipher_suite["TagLength"], block_size // 8, self.extensions, self.compression_method)', 'generate_keys install: block length in bytes'),
     # group Opts: main.py options
     ("tlexport/main.py", '        i = i.replace(",", "") # if somebody is using a "," as seperator\n', '', 'get_port_map: commas kept'),
     ("tlexport/main.py", '        output_port = int(split[1])', '        output_port = int(split[-1])', 'get_port_map: output port is the last field'),
@@ -372,7 +374,7 @@ def group_of(what):
 
     if fn == "DecryptionSecretBlock":
         return ["Dsb"]
-    if fn in ("find_session_secrets", "generate_keys select", "generate_keys block_size"):
+    if fn in ("find_session_secrets", "generate_keys select", "generate_keys block_size", "generate_keys install"):
         return ["TlsKeys"]
     if fn in ("get_port_map", "MapPortsAction", "server_ports"):
         return ["Opts"]
